@@ -117,9 +117,6 @@ def units(prop, tier, seed):
     from . import hazards
     for u in hazards.units(prop, tier, seed):
         yield ("hazard", u, next(order))
-    from . import scenarios
-    for u in scenarios.units(prop, tier, seed):
-        yield ("scen", u, next(order))
     un = [tag for tag, props in UNSTEER.items() if prop in props]
     if tier == "quick":
         for i in range(QUICK_SWEEPS):
@@ -191,9 +188,6 @@ def exec_unit(prop, unit, agg):
         sweep_unit(prop, arg, agg, order)
     elif kind == "sweep2":
         sweep_unit(prop, arg, agg, order, pairs=True)
-    elif kind == "scen":
-        from . import scenarios
-        scenarios.exec_unit(prop, arg, agg, order)
     elif kind == "hazard":
         from . import hazards
         hazards.exec_unit(prop, arg, agg, order)
